@@ -137,7 +137,7 @@ def _run_case(case, st):
 
 
 def run_case(case, st):
-    return LongLived.both(_run_case, case, st)
+    return LongLived.both(_run_case, case, st, repoint=True)
 
 
 def worker(chunk):
